@@ -1,7 +1,7 @@
 // Minimal reproducer (plain liblzma API): re-initialising the threaded encoder with an unchanged thread count and a
 // LARGER block_size reuses the worker's input buffer thr->in, which was allocated for the old block_size;
 // stream_encode_in() then copies up to the new block_size bytes into it (heap buffer overflow, deterministic).
-//   cc -fsanitize=address F6-reinit-blocksize-overflow.c -I/repo/src/liblzma/api <asan-build>/liblzma.a -lpthread && ./a.out
+//   cc -fsanitize=address C08-F6-reinit-blocksize-overflow.c -I/repo/src/liblzma/api <asan-build>/liblzma.a -lpthread && ./a.out
 #include <lzma.h>
 #include <stdio.h>
 #include <string.h>
